@@ -100,6 +100,7 @@ def _emit(ctx, desc):
 NAME_SCHEMES = {
     "words": ["entry", "header", "body", "latch", "tail", "exit"],
     "shared-index": ["a_0", "b_0", "a_1", "b_1", "a_2", "b_2"],
+    "zero-padded": ["n1", "n01", "n001", "n0001", "n00001", "n000001"],  # equal under a "natural" (numeric) sort key
 }
 
 
@@ -180,6 +181,7 @@ def jobs(tier):
     js = [gj("S1-N3-all-entries", 3), gj("S1-N4-all-entries", 4)]
     js.append(gj("S1-N4-entry-b0-names-without-digits", 4, 0, scheme="words"))
     js.append(gj("S1-N4-entry-b0-names-sharing-an-index", 4, 0, scheme="shared-index"))
+    js.append(gj("S1-N4-entry-b0-le5-edges-names-differing-in-zero-padding", 4, 0, max_edges=5, scheme="zero-padded"))
     # a loop with two headers reached from two different entry blocks (needs 5 blocks): the solver supplies exactly those graphs
     js.append(gj("S1-N5-entry-b0-two-headers-two-entries-le6-edges", 5, 0, max_edges=6, features={"headers": 2, "entries": 2}))
     js.append(pj("source-S2-ctl-c1", lambda ch: s2.CtlGen(ch, 1, 2, 1), 3, "source", {"space": "S2-ctl", "compounds<=": 1, "pipeline": "AST2SCFG, restructure, SCFG2AST text"}))
